@@ -1,21 +1,30 @@
 #!/bin/bash
-# Applies a seeded defect to /repo, runs the given checks (quick tier), and always restores /repo.
-# Usage: tools/try_seed.sh seeded/C02-a C02 [C04 ...]   (env TIER=thorough for the thorough tier)
+# Runs the given checks (quick tier) against a scratch worktree of /repo with a seeded defect applied; /repo itself is
+# never touched, and the run keeps its binary, evidence and replays under .work/ (removed afterwards).
+# Usage: tools/try_seed.sh seeded/C02-a C02 [C04 ...]   (env TIER=thorough for the thorough tier, WORKERS=n)
 set -u
 SEED="$(cd "$1" && pwd)"; shift
-cd /repo || exit 2
-if [ -n "$(git status --porcelain)" ]; then echo "/repo is dirty, refusing"; exit 2; fi
-restore() { git -C /repo reset -q --hard HEAD; git -C /repo clean -fdq >/dev/null 2>&1; }
-trap restore EXIT
+NAME="$(basename "$SEED")"
+WT="/tmp/seedtry-$NAME-$$"
+git -C /repo worktree add -q --detach "$WT" HEAD || exit 2
+ALT="/verif/.work/alt-$(echo "$WT" | tr -c 'A-Za-z0-9' '_')"
+cleanup() { git -C /repo worktree remove --force "$WT" >/dev/null 2>&1; rm -rf "$WT" "$ALT"; git -C /repo worktree prune; }
+trap cleanup EXIT
 PATCH="$SEED/patch.diff"
 # A seed made on the pinned commit may touch lines that a later fix: commit changed; then a ported patch is kept next to it.
 [ -f "$SEED/patch.ported.diff" ] && PATCH="$SEED/patch.ported.diff"
+cd "$WT" || exit 2
 if ! git apply "$PATCH" 2>/dev/null; then
   if ! patch -p1 --fuzz=3 -s --no-backup-if-mismatch -f < "$PATCH" >/dev/null 2>&1; then echo "PATCH DOES NOT APPLY (needs porting): $SEED"; exit 3; fi
 fi
 echo "applied: $(git diff --stat | tail -1)"
 cd /verif
 for P in "$@"; do
-  echo "--- $P on $(basename $SEED)"
-  ./check "$P" --tier "${TIER:-quick}" | grep -E "^(VIOLATION|KNOWN|HARNESS|C[0-9]+ tier|  rule)" | head -12
+  echo "--- $P on $NAME"
+  VERIF_REPO="$WT" ./check "$P" --tier "${TIER:-quick}" --workers "${WORKERS:-8}" | grep -E "^(VIOLATION|KNOWN|HARNESS|C[0-9]+ tier|  rule)" | head -12
+  for r in "$ALT"/replays/*.json; do [ -f "$r" ] && python3 -c "
+import json,sys
+d=json.load(open('$r')); v=d.get('violation',{})
+print('   ', v.get('rule'), '|', v.get('signature'), '|', (v.get('msg') or '')[:260])" ; done
+  rm -f "$ALT"/replays/*.json
 done
